@@ -234,7 +234,12 @@ func New(config ...Config) fiber.Handler {
 					// create real copy
 					keyS := string(key)
 					if _, ok := ignoreHeaders[keyS]; !ok {
-						e.headers[keyS] = utils.CopyBytes(value)
+						if prev, dup := e.headers[keyS]; dup && keyS != fiber.HeaderSetCookie {
+							// a field that occurs several times is kept as its combined field value (RFC 9110 section 5.3)
+							e.headers[keyS] = append(append(prev, ", "...), value...)
+						} else {
+							e.headers[keyS] = utils.CopyBytes(value)
+						}
 					}
 				},
 			)
